@@ -204,6 +204,9 @@ FIXTURES = {
     'mixed.dot': ('graph M {\n' + ''.join('%s;\n' % x for x in ('1', '2', '3', 'a', 'b', 'c', 'd', '10')) +
                   ''.join('%s -- %s;\n' % e for e in [('1', 'a'), ('a', 'b'), ('b', '2'), ('c', '3'),
                                                        ('d', '10'), ('c', 'd'), ('1', '10'), ('2', 'c')]) + '}\n'),
+    # a file name that is not ASCII (it is copied into the header)
+    'citt\u00e0.kthlist': '9\n1 : 6 7 0\n2 : 7 8 0\n3 : 6 9 0\n4 : 8 9 0\n5 : 6 8 0\n',
+    'pi\u00f9 \u00e9.cnf': 'c a small formula\np cnf 4 3\n1 -2 0\n2 3 -4 0\n-1 4 0\n',
     'mixeddag.dot': ('digraph MD {\n' + ''.join('%s;\n' % x for x in ('1', '2', 'x', 'y', 'z')) +
                      '1 -> x;\n2 -> x;\nx -> y;\n1 -> z;\ny -> z;\n}\n'),
 }
@@ -236,6 +239,13 @@ def file_menu():
     c('cnfgen', 'dimacs {FX}/small.cnf -T shuffle')
     c('cnfgen', 'dimacs {FX}/small.cnf')
     c('cnfshuffle', '-i {FX}/small.cnf')
+    # file names that are not ASCII, in every output format
+    for of in ('', '-of opb ', '-of latex '):
+        m.append(('cnfgen', (of + 'php').split() + ['{FX}/citt\u00e0.kthlist'], ''))
+        m.append(('cnfgen', (of + 'dimacs').split() + ['{FX}/pi\u00f9 \u00e9.cnf'], ''))
+    m.append(('pbgen', ['php', '{FX}/citt\u00e0.kthlist'], ''))
+    m.append(('cnfshuffle', ['-i', '{FX}/pi\u00f9 \u00e9.cnf'], ''))
+    m.append(('cnfgen', ['php', '{REL}citt\u00e0.kthlist'], ''))
     # the same file name relative to the working directory: every working
     # directory of the process part holds a copy of the fixtures
     c('cnfgen', 'kcolor 3 {REL}simple.gml')
@@ -281,9 +291,23 @@ def make_dirs():
     return base, gitdir, plain
 
 
-def run_batch(jobs, hashseed, cwd, tty=False):
+CLOCK_2031 = 1940000000          # 23 June 2031
+
+
+def run_batch(jobs, hashseed, cwd, kind=''):
+    """kind: the directory kind of the configuration, with '+tty' (standard
+    input is a terminal), '+clock' (the process runs in 2031), '+enc:<name>'
+    (standard output is a text layer with that encoding)."""
     env = dict(os.environ)
-    env['C07_TTY'] = '1' if tty else '0'
+    flags = kind.split('+')[1:]
+    env['C07_TTY'] = '1' if 'tty' in flags else '0'
+    env.pop('C07_CLOCK', None)
+    env.pop('C07_STDOUT_ENC', None)
+    if 'clock' in flags:
+        env['C07_CLOCK'] = str(CLOCK_2031)
+    for f in flags:
+        if f.startswith('enc:'):
+            env['C07_STDOUT_ENC'] = f[4:]
     env['PYTHONHASHSEED'] = str(hashseed)
     env['VERIF_REPO_PATH'] = os.environ.get('VERIF_REPO', REPO)
     env['PYTHONDONTWRITEBYTECODE'] = '1'
@@ -300,7 +324,8 @@ def configs(tier):
     # (label, PYTHONHASHSEED, directory kind)
     # a directory kind ending in '+tty': standard input is a terminal
     cs = [('hs0-git', '0', 'git'), ('hs1-plain', '1', 'plain'), ('hsrandom-plain', 'random', 'plain'),
-          ('hs3-plain-terminal', '3', 'plain+tty')]
+          ('hs3-plain-terminal', '3', 'plain+tty'), ('hs1-plain-in-2031', '1', 'plain+clock'),
+          ('hs1-plain-stdout-latin1', '1', 'plain+enc:latin-1'), ('hs1-plain-stdout-utf8', '1', 'plain+enc:utf-8')]
     if tier == 'thorough':
         cs += [('hs2-git', '2', 'git'), ('hs0-git-again', '0', 'git'), ('hsrandom-git', 'random', 'git')]
     return cs
@@ -320,8 +345,7 @@ def run_processes(args, R):
                  'stdin': s} for (t, a, s) in batch]
         results = {}
         for (label, hs, kind) in configs(tier):
-            results[label] = run_batch(jobs, hs, gitdir if kind.startswith('git') else plain,
-                                       tty=kind.endswith('+tty'))
+            results[label] = run_batch(jobs, hs, gitdir if kind.startswith('git') else plain, kind)
             R.stats['process_runs'] += 1
         labels = list(results)
         for i, job in enumerate(jobs):
@@ -735,8 +759,7 @@ def replay(case):
         job = {'tool': case['tool'], 'argv': [x.replace('{FX}', fx).replace('{REL}', '')
                                               for x in case['argv']],
                'stdin': case['stdin']}
-        res = [(lab, run_batch([job], hs, gitdir if kind.startswith('git') else plain,
-                               tty=kind.endswith('+tty'))[0])
+        res = [(lab, run_batch([job], hs, gitdir if kind.startswith('git') else plain, kind)[0])
                for (lab, hs, kind) in configs(case.get('tier', 'quick'))]
     finally:
         shutil.rmtree(base, ignore_errors=True)
